@@ -191,13 +191,68 @@ def _(graph: "Graph", vertex: "Node") -> "Seq[Node]":
 
 # ---------------------------------------------------------------- paths
 alias("Path", "Seq[Node]")
-bound(x="Path", y="Path", p="Path")
+bound(x="Path", y="Path", p="Path", q="Path")
 
 
-@contract("src.graph_utils.find_all_paths", pure=True, trusted=True)
+@ghost
+def PathExt(g: "Graph", pre: "Path", q: "Path") -> "Bool":
+    """q is a simple path of g that extends the walk pre: pre is a prefix of q, no vertex occurs twice in q, and every
+    vertex after the prefix is a successor (in g) of the vertex before it"""
+    define(len(q) >= len(pre) and seq_eq(take(q, len(pre)), pre) and nodup(q)
+           and forall(lambda j: implies(len(pre) <= j and j < len(q), q[j - 1] in g and q[j] in g[q[j - 1]]),
+                      triggers=[q[j]])
+           # (the same clause indexed by the earlier vertex of each step: a second trigger for the solver)
+           and forall(lambda j: implies(len(pre) - 1 <= j and 0 <= j and j + 1 < len(q), q[j] in g and q[j + 1] in g[q[j]]),
+                      triggers=[q[j]])
+           # (a consequence of the clauses above, stated so that the first step beyond the prefix is at hand)
+           and implies(len(q) > len(pre) and len(pre) >= 1,
+                       pre[len(pre) - 1] in g and q[len(pre)] in g[pre[len(pre) - 1]]))
+
+
+@ghost
+def Prefix(path: "Opt[Path]", start: "Node") -> "Path":
+    """(path or []) + [start]"""
+    define(snoc(ite(path is None, empty_seq("Path"), path), start))
+
+
+@contract("src.graph_utils.find_all_paths", pure=True)
 def _(graph: "Graph", start: "Node", path: "Opt[Path]") -> "Seq[Path]":
-    """not verified by pyvc (bounded stand-in, see DESIGN C19); only its result type is used"""
+    """exactly the simple paths that extend (path or []) + [start]"""
+    requires("prefix-simple", implies(path is not None, nodup(path) and start not in path))
     ensures("nonempty", len(result) >= 1)
+    ensures("sound", forall(lambda q: implies(q in result, PathExt(graph, Prefix(old(path), start), q)),
+                            triggers=[q in result]))
+    ensures("complete", forall(lambda q: implies(
+        PathExt(graph, Prefix(old(path), start), q), q in result),
+        triggers=[PathExt(graph, Prefix(old(path), start), q), nodup(q)]))
+    local(paths="Seq[Path]", newpaths="Seq[Path]")
+    with loop("0"):
+        invariant("has-prefix", path in paths)
+        invariant("sound", forall(lambda q: implies(q in paths, PathExt(graph, path, q)), triggers=[q in paths]))
+        invariant("complete", forall(lambda q: implies(
+            PathExt(graph, path, q) and (len(q) == len(path) or exists(lambda k: 0 <= k and k < _i0 and _s0[k] == q[len(path)])),
+            q in paths), triggers=[PathExt(graph, path, q)]))
+        # a simple path that continues with the successor `node` extends path + [node] (used with the callee's
+        # completeness clause)
+        body_hint(lemma("extend", forall(lambda q: implies(
+            PathExt(graph, path, q) and len(q) > len(path) and q[len(path)] == node,
+            PathExt(graph, Prefix(path, node), q)), triggers=[PathExt(graph, path, q)])))
+    with loop("0.0"):
+        invariant("has-prefix", path in paths)
+        invariant("sound", forall(lambda q: implies(q in paths, PathExt(graph, path, q)), triggers=[q in paths]))
+        invariant("complete", forall(lambda q: implies(
+            PathExt(graph, path, q) and (len(q) == len(path) or exists(lambda k: 0 <= k and k < _i0 and _s0[k] == q[len(path)])),
+            q in paths), triggers=[PathExt(graph, path, q)]))
+        invariant("inner", forall(lambda k: implies(0 <= k and k < _i0_0, newpaths[k] in paths)))
+        # a path found from the successor `node` with prefix path + [node] also extends `path`
+        body_hint(lemma("ext-len", len(newpath) >= len(path) + 1))
+        body_hint(lemma("ext-prefix", seq_eq(take(newpath, len(path)), path)))
+        body_hint(lemma("ext-nodup", nodup(newpath)))
+        body_hint(lemma("ext-edges", forall(lambda j: implies(
+            len(path) <= j and j < len(newpath), newpath[j - 1] in graph and newpath[j] in graph[newpath[j - 1]]),
+            triggers=[newpath[j]])))
+        body_hint(lemma("ext-first", path[len(path) - 1] in graph and newpath[len(path)] in graph[path[len(path) - 1]]))
+        body_hint(lemma("ext", PathExt(graph, path, newpath)))
 
 
 @contract("src.graph_utils.find_longest_paths.exist", pure=True)
